@@ -34,6 +34,7 @@ func main() {
 	solver := flag.String("solver", "z3", "z3 | z3-new | cvc5")
 	timeoutMs := flag.Int("timeout-ms", 10000, "solver timeout per query")
 	deadline := flag.Int("deadline-s", 0, "wall-clock budget per harness (0 = none)")
+	samples := flag.Int("samples", 6, "completed-path witnesses to keep per harness")
 	trace := flag.Bool("trace", false, "trace instructions (single worker)")
 	flag.Parse()
 	if *pkg == "" || *harness == "" || *entries == "" {
@@ -53,7 +54,7 @@ func main() {
 		if fn == nil {
 			fatalf("entry %s not found in %s", e, env.pkg.Pkg.Path())
 		}
-		lim := Limits{MaxInstrs: *maxInstrs, MaxDecisions: *maxDec, MaxPaths: *maxPaths, Workers: *workers, SolverKind: *solver, TimeoutMs: *timeoutMs}
+		lim := Limits{MaxInstrs: *maxInstrs, MaxDecisions: *maxDec, MaxPaths: *maxPaths, Workers: *workers, SolverKind: *solver, TimeoutMs: *timeoutMs, MaxSamples: *samples}
 		if *trace {
 			lim.Workers = 1
 		}
